@@ -141,7 +141,7 @@ func c27Gen(rng *rand.Rand, tier string, w *bufio.Writer) {
 			default:
 				fmt.Fprintf(w, "index %s %s\n", T(i), T(k))
 			}
-			if tier == "thorough" && rng.Intn(60) == 0 {
+			if tier == "thorough" && rng.Intn(400) == 0 {
 				fmt.Fprintln(w, "idle") // let every swamp pass its 1 s idle timeout: close, flush, reload on next use
 			}
 		}
